@@ -596,6 +596,16 @@ func (p *Prog) Summary(fn *ssa.Function, conds []ResultCond) []Atom {
 					set[a.s] = a
 				}
 			}
+			// integer results are named so that callers can relate them to the facts of this return
+			for ri, rv := range r.Results {
+				if _, _, isI := isInt(rv.Type()); isI {
+					if _, isC := rv.(*ssa.Const); !isC {
+						rt := mk(TParam, fmt.Sprintf("$ret%d", ri), rv.Type(), nil)
+						a := mkAtom("==", rt, fi.T(rv))
+						set[a.s] = a
+					}
+				}
+			}
 			// a result that is a full in-order map over a collection has that collection's length
 			for ri, rv := range r.Results {
 				if mo := fi.asMapOver(p, rv); mo != nil && len(mo.Elems) == 1 && mo.Loop.Lo == 0 && fi.onlyByExhaustion(mo.Loop, r.Block()) {
